@@ -38,17 +38,22 @@ Theorem tie_C15_cwd_OSTreeResolver :
   bracketed [L_base] skel_OSTreeResolver_hash_artifacts N_getcwd N_chdir_base N_chdir_back = true.
 Proof. vm_compute. reflexivity. Qed.
 
+(** (since the repair of D11a the directory resolver enters the base path itself, with the same bracket) *)
+Theorem tie_C15_cwd_DirectoryResolver :
+  bracketed [L_base] skel_DirectoryResolver_hash_artifacts N_getcwd N_chdir_base N_chdir_back = true.
+Proof. vm_compute. reflexivity. Qed.
+
 (** the skeletons really contain the bracket (the checker is not vacuously true) *)
 Theorem tie_C15_cwd_present :
   forallb (fun sk => has_call sk N_getcwd && has_call sk N_chdir_base && has_call sk N_chdir_back
                      && has_stable_label sk L_base)
-          [skel_FileResolver_hash_artifacts; skel_OSTreeResolver_hash_artifacts] = true.
+          [skel_FileResolver_hash_artifacts; skel_OSTreeResolver_hash_artifacts; skel_DirectoryResolver_hash_artifacts] = true.
 Proof. vm_compute. reflexivity. Qed.
 
 (** no other function of the recording / verification path changes directory itself *)
 Theorem tie_C15_cwd_callers :
   forallb (no_effect_calls eff_cwd)
-    [skel_DirectoryResolver_hash_artifacts; skel_record_artifacts_as_dict;
+    [skel_record_artifacts_as_dict;
      skel_subprocess_run_duplicate_streams; skel_execute_link; skel_in_toto_run; skel_in_toto_mock;
      skel_in_toto_record_start; skel_in_toto_record_stop; skel_in_toto_match_products;
      skel_run_all_inspections; skel_in_toto_verify] = true.
@@ -68,6 +73,13 @@ Theorem C15_cwd_OSTreeResolver_today : forall (D : Type) rho t o,
   forall base cwd0 saved0 : D,
     fst (bapply (Some N_getcwd) N_chdir_base N_chdir_back D base t (cwd0, saved0)) = cwd0.
 Proof. intros D rho t o. exact (C15_cwd D _ _ _ _ _ tie_C15_cwd_OSTreeResolver rho t o). Qed.
+
+Theorem C15_cwd_DirectoryResolver_today : forall (D : Type) rho t o,
+  exec rho skel_DirectoryResolver_hash_artifacts t o ->
+  no_excuse [] (Some N_getcwd) N_chdir_base N_chdir_back t ->
+  forall base cwd0 saved0 : D,
+    fst (bapply (Some N_getcwd) N_chdir_base N_chdir_back D base t (cwd0, saved0)) = cwd0.
+Proof. intros D rho t o. exact (C15_cwd D _ _ _ _ _ tie_C15_cwd_DirectoryResolver rho t o). Qed.
 
 (** * the ARTIFACT_BASE_PATH setting *)
 Theorem tie_C15_setting_run_all_inspections :
@@ -138,20 +150,19 @@ Theorem C15_callers_today : forall (St V : Type) (obs : St -> V) (E : str -> boo
   (forall n, eff_any n = false -> forall ok a b, E n ok a b -> obs b = obs a) ->
   forall sk, In sk [skel_record_artifacts_as_dict; skel_in_toto_run; skel_in_toto_mock;
                     skel_in_toto_record_start; skel_in_toto_record_stop;
-                    skel_in_toto_match_products; skel_in_toto_verify;
-                    skel_DirectoryResolver_hash_artifacts] ->
+                    skel_in_toto_match_products; skel_in_toto_verify] ->
   forall rho t o x y, exec rho sk t o -> steps St E t x y -> obs y = obs x.
 Proof.
   intros St V obs E HE sk Hin. apply (C15_callers St V obs E eff_any sk); [|exact HE].
   assert (Hall : forallb (no_effect_calls eff_any)
             [skel_record_artifacts_as_dict; skel_in_toto_run; skel_in_toto_mock;
              skel_in_toto_record_start; skel_in_toto_record_stop;
-             skel_in_toto_match_products; skel_in_toto_verify;
-             skel_DirectoryResolver_hash_artifacts] = true) by (vm_compute; reflexivity).
+             skel_in_toto_match_products; skel_in_toto_verify] = true) by (vm_compute; reflexivity).
   rewrite forallb_forall in Hall. apply Hall. assumption.
 Qed.
 
 Print Assumptions C15_cwd_FileResolver_today.
+Print Assumptions C15_cwd_DirectoryResolver_today.
 Print Assumptions C15_setting_run_all_inspections_today.
 Print Assumptions C15_tmp_stdout_today.
 Print Assumptions C15_callers_today.
